@@ -6,9 +6,19 @@ import vlib
 from runner import Property, ExecError
 from vlib import cz, clist, cbool, copt
 
-CHECKED = ["DELETE", "GET", "POST", "PUT"]
-OTHER_METHODS = ["PATCH", "HEAD", "OPTIONS", "TRACE", "get"]
-STD = {"aud": 1, "exp": 2, "jti": 3, "iat": 4, "iss": 5, "nbf": 6, "sub": 7}
+import c18consts
+
+# extracted from the Go sources (same extraction as coq/gen/C18Consts.v): the verified methods get
+# identifiers 1..n, the registered claims 1..n, in source order (GenProofs.v ties n to the model)
+try:
+    _C = c18consts.extract()
+except Exception:  # reported by regen() as a broken obligation
+    _C = {"verified_methods": ["DELETE", "GET", "POST", "PUT"], "maxBytes": 1 << 20,
+          "registered_claims": ["aud", "exp", "jti", "iat", "iss", "nbf", "sub"]}
+CHECKED = list(_C["verified_methods"])
+OTHER_METHODS = [m for m in ["PATCH", "HEAD", "OPTIONS", "TRACE", "get", "DELETE", "PUT"] if m not in CHECKED][:5]
+STD = {n: i + 1 for i, n in enumerate(_C["registered_claims"])}
+MAXBYTES = _C["maxBytes"]
 ALG = {"HS256": "HS256", "HS384": "HS384", "HS512": "HS512", "none": "ANone", "asym": "AAsym", "unknown": "AUnknown"}
 ALGID = {"HS256": 1, "HS384": 2, "HS512": 3}
 INT_RE = re.compile(r"^-?\d+$")
@@ -95,6 +105,10 @@ class C18(Property):
         "time claims are integral JSON numbers within int64/float64 exact range",
         "TokenParser history reset (24 h of real time) is not modelled; theorems hold for every history state",
     ]
+
+    # ------------------------------------------------------------------ translators
+    def regen(self, ctx):
+        return c18consts.regen()
 
     # ------------------------------------------------------------------ build
     def prepare(self, ctx):
@@ -328,7 +342,8 @@ class C18(Property):
                "ctype_other", "other_method", "other_method_signed", "xuri_same", "xuri_override", "xuri_unsigned",
                "xuri_bad", "xuri_empty", "cipher_trunc", "cipher_lastbyte", "cipher_wrongkey", "cipher_dropblock",
                "bodyraw_nl", "bodyraw_notb64", "bodyraw_short", "chunked", "aeskey_bad", "limit_small", "nonstrict",
-               "body_after", "fp_empty"]
+               "body_after", "fp_empty", "hdrfmt_nospace", "hdrfmt_spaces", "hdrfmt_trailing", "hdrfmt_junk",
+               "hdrfmt_dupsig_good_last", "hdrfmt_dupsig_bad_last", "hdrfmt_upper"]
     CRYPT_MUTS = ["none", "none", "none", "cipher_trunc", "cipher_lastbyte", "cipher_wrongkey", "cipher_dropblock",
                   "bodyraw_nl", "bodyraw_notb64", "bodyraw_short", "chunked", "aeskey_bad", "limit_small", "plain_body"]
 
@@ -371,6 +386,8 @@ class C18(Property):
             r["rsa"] = "garbage"
         elif mut == "rsa_notb64":
             r["rsa"] = "notb64"
+        elif mut.startswith("hdrfmt_"):
+            r["hdrfmt"] = mut[7:]
         elif mut.startswith("hdr_"):
             r["hdr"] = mut[4:]
         elif mut.startswith("sig_"):
@@ -447,14 +464,91 @@ class C18(Property):
             c["reqs"] = [self._jreq(rng, sec, c["prev"], now)]
         return c
 
+    def _eng_case(self, rng):
+        """a real rest.Server: route groups with/without WithJwt / WithJwtTransition / WithSignature / WithPrefix,
+        public siblings of protected routes, one generated request to one of the routes"""
+        c = self._cs_case(rng, False)
+        for k in ("withjwt", "limit"):
+            c.pop(k, None)
+        c["kind"] = "eng"
+        r = c["req"]
+        if r["method"] in ("get", "TRACE"):      # the router only registers the 7 standard methods
+            r["method"] = "PATCH"
+        m = r["method"]
+        other = rng.choice([x for x in ["GET", "POST", "PUT", "DELETE", "PATCH"] if x != m])
+        groups = [
+            {"jwt": True, "sig": False, "prefix": "", "routes": [[m, "/p/one"], [m, "/p/two"], [m, "/p/:id/x"]]},
+            {"jwt": False, "sig": True, "prefix": "", "routes": [[m, "/s/one"], [m, "/s/two"]]},
+            {"jwt": True, "sig": True, "prefix": "/v1", "routes": [[m, "/js/one"], [m, "/js/two"]]},
+            {"jwt": False, "sig": False, "prefix": "", "routes": [[other, "/p/one"], [other, "/s/two"], [m, "/pub"], [m, "/p"],
+                                                                  [m, "/v1/js"], [other, "/v1/js/two"]]},
+            {"jwt": True, "sig": False, "prefix": rng.choice(["/v2", "/v2/", "/v2//"]), "routes": [[m, "/q/one"], [m, "q/two"]]},
+            {"jwt": False, "sig": False, "prefix": "/v2", "routes": [[m, "/open"], [other, "/q/one"]]},
+        ]
+        rng.shuffle(groups)
+        gi = rng.randrange(len(groups))
+        ri = rng.randrange(len(groups[gi]["routes"]))
+        c["groups"], c["target"] = groups, [gi, ri]
+        g = groups[gi]
+        mth, pth = g["routes"][ri]
+        pth = pth.replace(":id", "42")
+        full = pth
+        if g["prefix"]:
+            full = "/" + "/".join(x for x in (g["prefix"] + "/" + pth).split("/") if x)
+        had_path = r["path"]
+        r["method"], r["path"] = mth, full
+        for k in ("spath",):
+            if r.get(k) is not None and k == "spath":
+                r["spath"] = full + r["spath"][len(had_path):] if r["spath"].startswith(had_path) else r["spath"]
+        if r.get("xuri") is not None and c.get("muts", [""])[0] == "xuri_same":
+            r["xuri"] = full + ("?" + r["query"] if r["query"] else "")
+        c["uacb"], c["uscb"] = rng.random() < 0.5, rng.random() < 0.5
+        now = 1700000000
+        c["secret"], c["prev"] = "chain-secret", rng.choice(["", "chain-old-secret"])
+        c["reqs"] = [self._jreq(rng, c["secret"], c["prev"], now)]
+        if g["jwt"] and rng.random() < (0.7 if g["sig"] else 0.35):
+            # a valid token, so that what lies behind the JWT gate is exercised too
+            for _ in range(200):
+                q = self._jreq(rng, c["secret"], c["prev"], now)
+                if q["cls"] in ("valid", "auth_lower", "auth_upper", "auth_noprefix", "exp_next", "nbf_now", "iat_now", "siglast"):
+                    c["reqs"] = [q]
+                    break
+        if not g["jwt"] and rng.random() < 0.5:
+            c["reqs"][0]["auth"] = "missing"
+        if not g["sig"] and rng.random() < 0.6:
+            r["hdr"] = "missing"
+            r["enc"] = False
+        return c
+
+    HDR_ATOMS = ["key", "secret", "signature", "time", "type", "=", "=", ";", ";", ";", " ", " ", "\t", "\n", "\r", "\x0b", "\x0c",
+                 "a", "b", "1", "AbC+/=", "k", "", "; ", " ;", "==", "key=", "secret=s3", "signature=sg"]
+
+    def _hdr_case(self, rng):
+        if rng.random() < 0.5:
+            parts = [rng.choice(self.HDR_ATOMS) for _ in range(rng.randint(0, 14))]
+            h = "".join(parts)
+        else:
+            fields = []
+            for name in rng.sample(["key", "secret", "signature", "key", "signature", "x", ""], rng.randint(0, 6)):
+                sp1, sp2 = rng.choice(["", " ", "  ", "\t"]), rng.choice(["", " ", "\t "])
+                val = rng.choice(["v", "", "a=b", "=", " v w ", "AAAA=="])
+                eq = rng.choice(["=", "=", "=", "", " = "])
+                fields.append(sp1 + name + eq + val + sp2)
+            h = rng.choice([";", "; ", " ;"]).join(fields)
+        return {"kind": "hdr", "hdrs": [h]}
+
     def gen(self, rng, n, tier):
         cases = []
         for _ in range(n):
             r = rng.random()
-            if r < 0.38:
+            if r < 0.30:
                 cases.append(self._jwt_case(rng))
-            elif r < 0.85:
+            elif r < 0.55:
                 cases.append(self._cs_case(rng, False))
+            elif r < 0.80:
+                cases.append(self._eng_case(rng))
+            elif r < 0.90:
+                cases.append(self._hdr_case(rng))
             else:
                 cases.append(self._cs_case(rng, True))
         return cases
@@ -468,7 +562,9 @@ class C18(Property):
         for r in res:
             if r.get("err"):
                 raise ExecError("c18 executor: case %s: %s" % (r.get("id"), r["err"]))
-            obs.append({"jwt": r.get("jwt"), "cs": r.get("cs")})
+            if r.get("cs") and r["cs"].get("engerr"):
+                raise ExecError("c18 executor: engine did not bind the routes: %s" % r["cs"]["engerr"])
+            obs.append({"jwt": r.get("jwt"), "cs": r.get("cs"), "hdr": r.get("hdr")})
         return obs
 
     # ------------------------------------------------------------------ rendering
@@ -521,11 +617,25 @@ class C18(Property):
         if case["kind"] == "jwt":
             cfg, tab, rq, ob = self._jwt_parts(case["secret"], case["prev"], case["reqs"], obs["jwt"])
             return "CJwt %s %s %s %s" % (cfg, tab, clist(rq), clist(ob))
+        if case["kind"] == "hdr":
+            h = obs["hdr"][0]
+            pairs = clist(["(%s, %s)" % (hexbytes(k), hexbytes(v)) for k, v in sorted(h["attrs"].items())])
+            return "CHdr %s %s" % (hexbytes(h["raw"]), pairs)
         return "CCs (%s)" % self._cs_term(case, obs["cs"])
+
+    def _opts(self, case):
+        """(route has the JWT option, route has the signature verifier, stand-alone cryption handler)"""
+        if case["kind"] == "crypt":
+            return False, False, True
+        if case["kind"] == "eng":
+            g = case["groups"][case["target"][0]]
+            return bool(g["jwt"]), bool(g["sig"]), False
+        return bool(case.get("withjwt")), True, False
 
     def _cs_term(self, case, o):
         q, v = case["req"], o["view"]
-        crypt = case["kind"] == "crypt"
+        has_jwt, has_sig, crypt = self._opts(case)
+        codeobs = (case["kind"] == "cs" and not has_jwt) or (case["kind"] == "eng" and bool(case.get("uscb")))
         ids, tagid, keyid = Intern(1), Intern(1), Intern(1)
         mid = CHECKED.index(q["method"]) + 1 if q["method"] in CHECKED else 5 + ids("m:" + q["method"])
         pid, qid = ids("p:" + v["path"]), ids("q:" + v["query"])
@@ -550,7 +660,7 @@ class C18(Property):
                                                      copt(None if v["ctype"] is None else cz(v["ctype"])))
         decs = clist([str({"A": 1, "B": 2}[k]) for k in case.get("keys", [])])
         jwt = "None"
-        if case.get("withjwt"):
+        if has_jwt:
             cfg, tab, rq, _ = self._jwt_parts(case["secret"], case["prev"], case["reqs"][:1], [self._chain_view(case, o)])
             now_cred = rq[0][1:-1]
             jwt = "(Some (%s, %s, %s))" % (cfg, tab, now_cred)
@@ -565,9 +675,9 @@ class C18(Property):
             copt(None if o.get("respplain") is None else hexbytes(o["respplain"])),
             cbool(bool(o.get("panic"))), res_term(o["codecenc"]) or "Err", res_term(o["codecdec"]) or "Err",
             copt(raw_dec))
-        return "mkCs %s %s %s %s %s %s %s %s %s %d %s %s %d %s %s %s %s %s %s %s" % (
-            cbool(crypt), jwt, cbool(bool(case.get("strict"))), decs, cz(case.get("tol", 0)), cz(v["now"]),
-            cz(case.get("limit") or (1 << 20)), req, strbytes(q["resp"]), 0, rsa, clist(tags), dig,
+        return "mkCs %s %s %s %s %s %s %s %s %s %s %s %d %s %s %d %s %s %s %s %s %s %s" % (
+            cbool(crypt), cbool(has_sig), cbool(codeobs), jwt, cbool(bool(case.get("strict"))), decs, cz(case.get("tol", 0)), cz(v["now"]),
+            cz(case.get("limit") or MAXBYTES), req, strbytes(q["resp"]), 0, rsa, clist(tags), dig,
             cbool(v["aesok"]), tabterm(v["etab"]), tabterm(v["dtab"]),
             copt(None if v["b64"] is None else hexbytes(v["b64"])), strbytes(q["body"]), cbool(honest), ob)
 
@@ -595,20 +705,20 @@ class C18(Property):
         return True
 
     def known(self, case, obs):
-        if case["kind"] == "jwt":
+        if case["kind"] in ("jwt", "hdr"):
             return None
         o = obs["cs"]
         v, q = o["view"], case["req"]
         if o.get("panic"):
             return None
-        crypt = case["kind"] == "crypt"
+        has_jwt, has_sig, crypt = self._opts(case)
         jwt_ok = True
-        if case.get("withjwt"):
+        if has_jwt:
             jwt_ok = self._jwt_valid(o["jwtview"], case["prev"], case["reqs"][0]["now"])
-        signed = (not crypt) and self._signed_spec(case, v)
-        gate_fail = o["ran"] and ((not crypt and case.get("strict") and not signed) or not jwt_ok)
+        signed = has_sig and self._signed_spec(case, v)
+        gate_fail = o["ran"] and ((has_sig and case.get("strict") and not signed) or not jwt_ok)
         honest = bool(q.get("enc")) and not q.get("cipherop") and q.get("bodyraw") is None
-        lim = case.get("limit") or (1 << 20)
+        lim = case.get("limit") or MAXBYTES
         xsame = v["xpath"] is None or (v["xpath"], v["xquery"]) == (v["path"], v["query"])
         must = honest and v["aesok"] and jwt_ok and v["contentlen"] <= lim and xsame and (crypt or (signed and v["ctype"] == 1 and q["method"] in CHECKED))
         plain_hex = bytes(ord(ch) & 255 for ch in q["body"]).hex()
@@ -635,9 +745,14 @@ class C18(Property):
         if case["kind"] == "jwt":
             toks = [o for o in obs["jwt"] if o["view"]["cred"] == "token"]
             return any(o["ran"] for o in toks) and any(not o["ran"] for o in toks)
+        if case["kind"] == "hdr":
+            return len(obs["hdr"][0]["attrs"]) > 0
         v = obs["cs"]["view"]
         if case["kind"] == "crypt":
             return v["b64"] is not None
+        if case["kind"] == "eng":
+            has_jwt, has_sig, _ = self._opts(case)
+            return has_jwt or has_sig
         return bool(v["secok"])
 
     def features(self, case, obs):
@@ -645,19 +760,30 @@ class C18(Property):
         if case["kind"] == "jwt":
             for q, o in zip(case["reqs"], obs["jwt"]):
                 fs.append("jwt:%s:%s" % (q.get("cls", "corpus"), "ran" if o["ran"] else str(o["status"])))
+        elif case["kind"] == "hdr":
+            fs.append("hdr:attrs=%d" % len(obs["hdr"][0]["attrs"]))
         else:
             o = obs["cs"]
+            if case["kind"] == "eng":
+                has_jwt, has_sig, _ = self._opts(case)
+                fs.append("eng:route=%s%s:%s" % ("jwt" if has_jwt else "", "sig" if has_sig else "",
+                                                 "ran" if o["ran"] else str(o["status"])))
             for m in case.get("muts", ["corpus"]):
                 fs.append("%s:%s:%s" % (case["kind"], m, "ran" if o["ran"] else str(o["status"])))
             if case.get("withjwt"):
                 fs.append("chain")
-            if case["kind"] == "cs":
+            if case["kind"] in ("cs", "eng"):
                 fs.append("strict" if case.get("strict") else "nonstrict")
                 fs.append("code=%s" % o["code"])
         return fs
 
     def shrink_candidates(self, case):
         res = []
+        if case["kind"] == "hdr":
+            h = case["hdrs"][0]
+            for i in range(len(h)):
+                res.append({"kind": "hdr", "hdrs": [h[:i] + h[i + 1:]]})
+            return res[:60]
         if case["kind"] == "jwt":
             rs = case["reqs"]
             for i in range(len(rs)):
@@ -685,6 +811,11 @@ class C18(Property):
         return res
 
     def describe_failure(self, case, obs):
+        if case["kind"] == "hdr":
+            return "httpx.ParseHeader returned an attribute that is not verbatim the last well-formed field for its key, or lost one"
+        if case["kind"] == "eng":
+            return ("a route registered on a rest.Server with WithJwt/WithJwtTransition/WithSignature ran its handler without "
+                    "the credential its options require (or an encrypted body/response did not round-trip)")
         if case["kind"] == "jwt":
             return ("the JWT gate called the handler for a token that is not validly signed/currently valid, did not answer "
                     "401 on rejection, or delivered other context claims than the token's non-registered ones")
